@@ -183,6 +183,10 @@ def facts(snap, F):
     F.try_add("winMapsLoopGuarded", "Bool", lambda: lean_bool(T.win_maps_loop_guarded(tree("_pswindows.py"))),
               "_pswindows.Process.memory_maps: every convert_dos_path() call of the per-mapping loop is inside the try whose `except OSError` raises convert_oserror(err, self.pid, self._name)")
 
+    F.try_add("winIdentFastOnly", "Bool",
+              lambda: lean_bool(T.ident_fast_only(tree("__init__.py"), tree("_pswindows.py"))),
+              "Process._get_ident: the WINDOWS branch calls self._proc.create_time(fast_only=True) AND _pswindows.Process.create_time re-raises a permission error when fast_only (no slower fall-back for the identity)")
+
     mt = {}
 
     def methods(ident):
